@@ -1,8 +1,12 @@
 """
 Facts about a loki ``Sourcefile`` in the JSON shape of gen.truth():
-  {'units': [[path, kind]], 'scopes': {path: {'imports', 'typedefs', 'ifaces', 'calls'}}}
+  {'units': [[path, kind]], 'scopes': {path: {'imports', 'typedefs', 'ifaces', 'calls'}},
+   'lines': {path: {class: [[first, last] | None per item]}}}      (where the item's node says it is)
 Names are lower-cased; paths are '/'-joined unit names (nesting).
+
+Comparison helpers: diff(ref, got, classes) -> [(class, scope, direction, item, lines)].
 """
+FACT_CLASSES = ('units', 'imports', 'typedefs', 'ifaces', 'calls')
 
 
 def _name(s):
@@ -37,10 +41,17 @@ def call_name(c):
     return str(getattr(n, 'name', n)).lower().replace(' ', '')
 
 
+def _lines(node):
+    src = getattr(node, 'source', None)
+    if src is None or not src.lines:
+        return None
+    return [src.lines[0], src.lines[1] if src.lines[1] is not None else src.lines[0]]
+
+
 def extract(sf):
     from loki import Module
     from loki.ir import nodes as ir, FindNodes
-    units, scopes = [], {}
+    units, scopes, lines = [], {}, {}
 
     def unit(u, path):
         pth = path + [u.name.lower()]
@@ -49,25 +60,33 @@ def extract(sf):
         kind = 'module' if is_mod else ('function' if getattr(u, 'is_function', False) else 'subroutine')
         units.append([key, kind])
         d = scopes[key] = {}
+        ln = lines[key] = {'unit': _lines(u)}
         spec = u.spec
-        d['imports'] = [import_fact(i) for i in FindNodes(ir.Import).visit(spec)
-                        if not getattr(i, 'c_import', False) and not getattr(i, 'f_include', False)
-                        and not getattr(i, 'f_import', False)] if spec is not None else []
-        d['typedefs'] = [typedef_fact(td) for td in FindNodes(ir.TypeDef).visit(spec)] if spec is not None else []
-        d['ifaces'] = [iface_fact(i) for i in FindNodes(ir.Interface).visit(spec)] if spec is not None else []
+        imps = [i for i in FindNodes(ir.Import).visit(spec)
+                if not getattr(i, 'c_import', False) and not getattr(i, 'f_include', False)
+                and not getattr(i, 'f_import', False)] if spec is not None else []
+        d['imports'] = [import_fact(i) for i in imps]
+        ln['imports'] = [_lines(i) for i in imps]
+        tds = list(FindNodes(ir.TypeDef).visit(spec)) if spec is not None else []
+        d['typedefs'] = [typedef_fact(td) for td in tds]
+        ln['typedefs'] = [_lines(td) for td in tds]
+        ifs = list(FindNodes(ir.Interface).visit(spec)) if spec is not None else []
+        d['ifaces'] = [iface_fact(i) for i in ifs]
+        ln['ifaces'] = [_lines(i) for i in ifs]
         if not is_mod:
             calls = []
             for sec in (u.spec, getattr(u, 'body', None)):
                 if sec is not None:
-                    calls += [call_name(c) for c in FindNodes(ir.CallStatement).visit(sec)]
-            d['calls'] = calls
+                    calls += list(FindNodes(ir.CallStatement).visit(sec))
+            d['calls'] = [call_name(c) for c in calls]
+            ln['calls'] = [_lines(c) for c in calls]
         for c in (u.subroutines if is_mod else u.members):
             unit(c, pth)
 
     for u in sf.ir.body:
         if hasattr(u, 'spec') and hasattr(u, 'contains'):
             unit(u, [])
-    return {'units': units, 'scopes': scopes}
+    return {'units': units, 'scopes': scopes, 'lines': lines}
 
 
 def find_unit(sf, key):
@@ -75,3 +94,79 @@ def find_unit(sf, key):
     for n in key.split('/'):
         u = u[n]
     return u
+
+
+def _multidiff(ref, got):
+    """(missing, spurious) as lists of (item, index in its list) using multiset semantics, deterministic"""
+    import json
+    rk = [json.dumps(x, sort_keys=True) for x in ref]
+    gk = [json.dumps(x, sort_keys=True) for x in got]
+    gleft = list(gk)
+    missing = []
+    for i, k in enumerate(rk):
+        if k in gleft:
+            gleft.remove(k)
+        else:
+            missing.append((ref[i], i))
+    rleft = list(rk)
+    spurious = []
+    for i, k in enumerate(gk):
+        if k in rleft:
+            rleft.remove(k)
+        else:
+            spurious.append((got[i], i))
+    return missing, spurious
+
+
+def diff(ref, got, classes=FACT_CLASSES, scopes=None):
+    """
+    differences of ``got`` against ``ref`` restricted to fact classes (and optionally to a set of scopes):
+    [(class, scope, direction, item, lines-of-the-item-in-got-or-None)], direction in
+    missing | spurious | differs | order
+    """
+    out = []
+    gl = got.get('lines', {})
+    if 'units' in classes:
+        miss, spur = _multidiff(ref['units'], got['units'])
+        mk = {m[0][0]: m for m in miss}
+        for (item, i) in spur:
+            if item[0] in mk:
+                out.append(('units', item[0], 'differs', [mk[item[0]][0], item], gl.get(item[0], {}).get('unit')))
+                del mk[item[0]]
+            else:
+                out.append(('units', item[0], 'spurious', item, gl.get(item[0], {}).get('unit')))
+        for m in mk.values():
+            out.append(('units', m[0][0], 'missing', m[0], None))
+    for key, rs in ref['scopes'].items():
+        gs = got['scopes'].get(key)
+        if gs is None or (scopes is not None and key not in scopes):
+            continue
+        for cls in ('imports', 'typedefs', 'ifaces', 'calls'):
+            if cls not in classes or cls not in rs:
+                continue
+            r, g = rs[cls], gs.get(cls, [])
+            if r == g:
+                continue
+            lines = gl.get(key, {}).get(cls) or []
+            miss, spur = _multidiff(r, g)
+            if not miss and not spur:
+                out.append((cls, key, 'order', [r, g], None))
+                continue
+            mk = {}
+            for m in miss:
+                mk.setdefault(str(m[0][0]) if cls != 'calls' else None, []).append(m)
+            for (item, i) in spur:
+                k0 = str(item[0]) if cls != 'calls' else None
+                ln = lines[i] if i < len(lines) else None
+                if cls != 'calls' and mk.get(k0):
+                    m = mk[k0].pop(0)
+                    out.append((cls, key, 'differs', [m[0], item], ln))
+                else:
+                    out.append((cls, key, 'spurious', item, ln))
+            for ms in mk.values():
+                for m in ms:
+                    if cls == 'calls' and any(o[0] == 'calls' and o[1] == key and o[2] == 'spurious' for o in out) \
+                            and False:
+                        continue
+                    out.append((cls, key, 'missing', m[0], None))
+    return out
